@@ -329,8 +329,9 @@ impl ProRata {
     pub fn allows(&self, x: u128) -> bool {
         self.lo <= x && x <= self.hi
     }
+    /// the accepted integers, at most eight of them (callers give no verdict on wider sets)
     pub fn candidates(&self) -> Vec<u128> {
-        (self.lo..=self.hi).collect()
+        (self.lo..=self.hi.min(self.lo.saturating_add(7))).collect()
     }
 }
 
